@@ -72,6 +72,10 @@ CHECKS = {
   "round-trip / idempotence monitor over reader-accepted inputs produced by the independent writer: F1~F2 under the documented tolerances, F2==F3 exactly, in all four formats",
   "Inputs come from the independent Type 1 writer (not from the library's writer) with unusual but legal content - fractional widths and side bearings, sbw, staircases of equal fractional steps, absent FontName, fonts without .notdef, the empty glyph name, unusual regular characters in names, encodings naming absent glyphs, empty strings, version strings with line ends, % and parentheses, every accepted date layout and unparsable dates, real-valued or malformed Private entries, huge and tiny finite numbers, BlueScale within 1e-6 of its default - plus structure-aware mutations of the clear text. For every input type1.Read accepts, Write must succeed without panic or error in each format, Read(Write(F1)) must equal F1 up to widths rounded to integers, coordinates within 1/214 and BlueScale snapped to the default, and a second write/read cycle must change nothing at all.",
   "Inputs whose F1 contains NaN/Inf are skipped. The exact boundary of the BlueScale snap (|x - 0.039625| = 1e-6) is not asserted."),
+ "C12": ("exploration", "DESIGN.md 11/C12",
+  "I/O-boundary schedule injection (plan readers with logged calls) + differential comparison against the one-read result; multi-call differential on one interpreter",
+  "For inputs of all five entry points (programs with eexec sections and readstring data at every phase of the 512-byte refill, CMap files, fonts in all containers from both writers, AFM files, PFB streams, a quarter of them with content errors) the public call is repeated under delivery plans - single bytes, every two-chunk split position (all positions for small inputs, else around multiples of 512, the eexec start and every PFB header, plus random ones), seeded chunk sequences, data returned together with EOF, seekable sources for type1.Read - and the canonical result digest and error text must equal the one-read result; the reader log shows how many calls each plan produced. Generated programs are also cut at 1-5 token boundaries (including inside unfinished procedure bodies and around DSC lines) and fed through consecutive Execute calls of one interpreter: final state digest, NumOps and DSC must equal the single-call run.",
+  "Programs containing `stop` are excluded from the multi-call clause (stop ends the whole program of one call but only one call of several)."),
 }
 
 NOT_CLAIMED = {}
